@@ -796,6 +796,11 @@ pub fn replay_c19(case: &Value) -> Verdict {
             Err(e) => Verdict::Fail(e),
         };
     }
+    if case.get("FuzzArtifact").is_some() {
+        // an input saved by the libFuzzer target decode_unsafe_paths: the same in-process oracle as the target (C05's
+        // check of a raw input), then the sanitizer build itself if it is there
+        return crate::props::faults::replay_c05(case);
+    }
     if let Some(t) = case.get("Fickle") {
         let c: FickleCase = serde_json::from_value(t.clone()).expect("replay case");
         return check_fickle(&c, &mut Acc::new(), false);
